@@ -1,6 +1,7 @@
 (* C10 property theorems (statements only; proofs are `exact`/short compositions of Proofs.v lemmas). *)
 From Coq Require Import ZArith List Bool Lia.
 From EP Require Import Gen.C10Tables C10.Model C10.Proofs.
+From EP Require Gen.C10Shape.
 Import ListNotations.
 Open Scope Z_scope.
 
@@ -46,3 +47,9 @@ Example C10_nonvacuous :
   enc64 [102; 111; 111; 98] = [90; 109; 57; 118; 89; 103; 61; 61] /\ enc_hex [0; 255; 16] = [48; 48; 70; 70; 49; 48] /\
   lex_double false [49; 46; 53; 69; 45; 49; 48] = true /\ lex_double false [43; 73; 78; 70] = false /\ lex_decimal [46] = false.
 Proof. vm_compute. repeat split; reflexivity. Qed.
+
+(* the statements of /repo that the hand model mirrors are present in the source as read on this run (T-data,
+   harness/shape.py -> Gen/C10Shape.v) *)
+Theorem C10_source_shape : Gen.C10Shape.shape_ok = true.
+Proof. reflexivity. Qed.
+Print Assumptions C10_source_shape.
